@@ -704,6 +704,16 @@ def slot_table(ctx, I, mod, short):
                    bad_detail=f"{short}: props[{name}={idx}] holds {got!r}, not '{key}' (index constant and order of the property vector disagree)")
 
 
+_UPDATE_FN = ("def _compute_state_new(dispGrad, stateOld, dt, props):\n    Ee_trial = _compute_elastic_logarithmic_strain(dispGrad, stateOld)\n"
+              "    delta_Ev = _compute_state_increment(Ee_trial, dt, props)\n\n    Fv_old = stateOld.reshape((3, 3))\n"
+              "    Fv_new = linalg.expm(delta_Ev)@Fv_old\n    return Fv_new.ravel()\n")
+_UPDATE_CLASS = ("class _Step:\n    def __init__(self, dispGrad, stateOld, dt, props):\n        self.Fv_old = stateOld.reshape((3, 3))\n"
+                 "        Ee_trial = _compute_elastic_logarithmic_strain(dispGrad, stateOld)\n"
+                 "        self.delta_Ev = _compute_state_increment(Ee_trial, dt, props)\n\n    @property\n    def Fv_new(self):\n"
+                 "        return linalg.expm(@SIGN@self.delta_Ev)@self.Fv_old\n\n    def packed(self):\n        return self.Fv_new.ravel()\n\n"
+                 "def _compute_state_new(dispGrad, stateOld, dt, props):\n    return _Step(dispGrad, stateOld, dt, props).packed()\n")
+
+
 def variants(repo):
     from optilint.selftest import Variant, sub, sub_in_func, alpha_rename, reformat
     V = "optimism/material/HyperViscoelastic.py"
@@ -740,6 +750,11 @@ def variants(repo):
                 "    branch = [properties[f'{key} {n + 1}'] for n in range(NUM_PRONY_TERMS) for key in ('non equilibrium shear modulus', 'relaxation time')]\n    props = np.array([properties['equilibrium bulk modulus'], properties['equilibrium shear modulus']] + branch)\n"), None),
         Variant("exponential of the wrong sign", V, sub_in_func("_compute_state_new", "linalg.expm(delta_Ev)@Fv_old", "linalg.expm(-delta_Ev)@Fv_old"), "D3/T7-update-factor"),
         Variant("update without the exponential map", V, sub_in_func("_compute_state_new", "linalg.expm(delta_Ev)@Fv_old", "(np.identity(3) + delta_Ev)@Fv_old"), "D1/T5-distortion-update"),
+        Variant("state update in a private helper class", V, sub(_UPDATE_FN, _UPDATE_CLASS.replace("@SIGN@", "")), None),
+        Variant("helper class: exponential of the wrong sign in a property", V, sub(_UPDATE_FN, _UPDATE_CLASS.replace("@SIGN@", "-")), "D3/T7-update-factor"),
+        Variant("optional deformation gradient threaded through the strain helper", MB, sub(
+                "def _compute_elastic_logarithmic_strain(dispGrad, stateOld):\n    F = dispGrad + np.identity(3)\n",
+                "def _compute_elastic_logarithmic_strain(dispGrad, stateOld, F=None):\n    if F is None:\n        F = dispGrad + np.identity(3)\n"), None),
         Variant("branch loop unrolled into a comprehension", MB, sub_in_func("_compute_dissipated_energy",
                 "    Psi = 0.0\n    for n in range(NUM_PRONY_TERMS):\n      state_temp = _return_state_for_branch(state, n)\n      Ee_trial = _compute_elastic_logarithmic_strain(dispGrad, state_temp)\n      delta_Ev = _compute_state_increment(Ee_trial, dt, props, _return_Gneq_id_for_branch(n))\n      Dv = delta_Ev / dt\n      Psi = Psi + dt * _dissipation_potential(Dv, props, _return_Gneq_id_for_branch(n))\n\n    return Psi",
                 "    def one(n):\n      Ee_trial = _compute_elastic_logarithmic_strain(dispGrad, _return_state_for_branch(state, n))\n      pid = _return_Gneq_id_for_branch(n)\n      return dt * _dissipation_potential(_compute_state_increment(Ee_trial, dt, props, pid) / dt, props, pid)\n    return sum([one(n) for n in range(NUM_PRONY_TERMS)])"), None),
